@@ -14,11 +14,17 @@ RECURSIVE FirstOk(_, _)
 FirstOk(singles, i) == IF i > Len(singles) THEN 0 ELSE IF singles[i].res # <<>> THEN i ELSE FirstOk(singles, i + 1)
 Expected(r) == LET k == FirstOk(r.singles, 1) IN IF k = 0 THEN Nothing ELSE r.singles[k]
 
+ExpectedFallback(r) == LET k == FirstOk(r.defsingles, 1) IN IF k = 0 THEN Nothing ELSE r.defsingles[k]
+
 Verdict(r) ==
   IF r.exc # "" THEN "exception"
   ELSE IF r.multi # Expected(r) THEN "not-the-first-successful-language"
   ELSE IF r.multi.loc # "" /\ ~(\E i \in 1..Len(r.order) : r.order[i] = r.multi.loc) THEN "reported-locale-not-selected"
   ELSE IF r.multi # Nothing /\ r.multidef # r.multi THEN "default-languages-changed-the-result"
+  \* the fallback: when no selected language serves the string, the first DEFAULT_LANGUAGE - in the given order when
+  \* requested, else in the library's priority order - that parses it decides (r.defsingles: each fallback language alone)
+  ELSE IF r.multi = Nothing /\ r.multidef # ExpectedFallback(r) THEN "fallback-not-the-first-successful-default-language"
+  ELSE IF ~r.held THEN "caller-list-modified"
   ELSE IF r.multidef.loc # "" /\ ~(\E i \in 1..Len(r.order) : r.order[i] = r.multidef.loc)
           /\ ~(\E i \in 1..Len(r.defaults) : r.defaults[i] = r.multidef.loc) THEN "reported-locale-not-selected"
   ELSE IF r.auto.res # <<>> /\ r.reparse # r.auto THEN "autodetection-not-reproducible"
